@@ -143,8 +143,10 @@ func (c *c11Conn) fake() *c11Fake {
 }
 
 func (c *c11Conn) Prepare(q string) (driver.Stmt, error) { return &c11Stmt{c: c, q: q}, nil }
-func (c *c11Conn) Close() error                        { return nil }
-func (c *c11Conn) Begin() (driver.Tx, error)           { return c.BeginTx(context.Background(), driver.TxOptions{}) }
+func (c *c11Conn) Close() error                          { return nil }
+func (c *c11Conn) Begin() (driver.Tx, error) {
+	return c.BeginTx(context.Background(), driver.TxOptions{})
+}
 
 func (c *c11Conn) BeginTx(context.Context, driver.TxOptions) (driver.Tx, error) {
 	f := c.fake()
@@ -186,10 +188,10 @@ type c11Stmt struct {
 	q string
 }
 
-func (s *c11Stmt) Close() error                                 { return nil }
-func (s *c11Stmt) NumInput() int                                { return -1 }
-func (s *c11Stmt) Exec([]driver.Value) (driver.Result, error)   { return s.c.doExec() }
-func (s *c11Stmt) Query([]driver.Value) (driver.Rows, error)    { return s.c.doQuery() }
+func (s *c11Stmt) Close() error                               { return nil }
+func (s *c11Stmt) NumInput() int                              { return -1 }
+func (s *c11Stmt) Exec([]driver.Value) (driver.Result, error) { return s.c.doExec() }
+func (s *c11Stmt) Query([]driver.Value) (driver.Rows, error)  { return s.c.doQuery() }
 
 type c11Tx struct{ f *c11Fake }
 
@@ -226,6 +228,26 @@ func (r *c11Rows) Next(dest []driver.Value) error {
 	return nil
 }
 
+// VerifC11SetLog puts the package's process-wide logging switches into the
+// state a case asks for, through the public API (DisableLog / DisableStmtLog;
+// "" = both on, the default), and returns the function that restores the
+// previous state (there is no exported way to switch them back on).
+func VerifC11SetLog(mode string) (restore func()) {
+	oldSQL, oldSlow := logSQL.True(), logSlowSQL.True()
+	logSQL.Set(true)
+	logSlowSQL.Set(true)
+	switch mode {
+	case "off":
+		DisableLog()
+	case "stmtoff":
+		DisableStmtLog()
+	}
+	return func() {
+		logSQL.Set(oldSQL)
+		logSlowSQL.Set(oldSlow)
+	}
+}
+
 // ---------------------------------------------------------------------------
 // rule 1: transactions
 // ---------------------------------------------------------------------------
@@ -245,6 +267,7 @@ type C11TxCase struct {
 	Out       string    `json:"o"`            // outcome of the body after its statements: nil | err | panic
 	PanicV    string    `json:"pv,omitempty"` // err | str | rt (runtime error)
 	FBegin    string    `json:"fb,omitempty"` // "" | connect | begin
+	Log       string    `json:"lg,omitempty"` // package logging switches: "" both on | off (sqlx.DisableLog) | stmtoff (sqlx.DisableStmtLog)
 	FCommit   bool      `json:"fc,omitempty"`
 	FRollback bool      `json:"fr,omitempty"`
 }
@@ -297,6 +320,7 @@ func VerifC11GenTx(entries []string) func(rt *rapid.T) C11TxCase {
 		}
 		c.FCommit = rapid.IntRange(0, 3).Draw(rt, "fcommit") == 0
 		c.FRollback = rapid.IntRange(0, 3).Draw(rt, "frollback") == 0
+		c.Log = rapid.SampledFrom([]string{"", "", "off", "off", "stmtoff"}).Draw(rt, "log")
 		return c
 	}
 }
@@ -356,6 +380,7 @@ const c11KnownPanicSwallowed = "panic-swallowed-no-rollback"
 // back), and may roll back instead of committing when the body returned nil
 // (non-nil result, no Commit, one Rollback).
 func VerifC11InterpTx(c C11TxCase, run C11Runner) (v kit.Verdict) {
+	defer VerifC11SetLog(c.Log)()
 	f := newC11Fake()
 	f.failBegin = c.FBegin == "begin"
 	f.failConnect = c.FBegin == "connect"
@@ -421,8 +446,9 @@ func VerifC11InterpTx(c C11TxCase, run C11Runner) (v kit.Verdict) {
 	runs := 0
 	var captured Session
 	queryWrong := ""
-	outcome := ""        // observed: nil | err | panic
-	var returned error   // the error the body returned
+	lostFault := ""
+	outcome := ""         // observed: nil | err | panic
+	var returned error    // the error the body returned
 	var executed []string // driver-level kind of every statement the body started
 	sawStmtFault, panicAtStmt, ctxFailedStmt := false, false, false
 	fn := func(ctx context.Context, s Session) error {
@@ -466,7 +492,15 @@ func VerifC11InterpTx(c C11TxCase, run C11Runner) (v kit.Verdict) {
 					_ = ps.Close()
 				}
 			}
-			f.arm(nil) // a statement that never reached the driver must not leave its fault behind
+			// a statement that never reached the driver must not leave its fault behind
+			if left := f.takeArmed(); st.F && left == nil && lostFault == "" {
+				// the driver failed this statement: the session call must say so
+				if err == nil {
+					lostFault = fmt.Sprintf("statement %d (%s): the driver failed it with %q but the session call returned a nil error", i, st.K, stmtErrs[i])
+				} else if !errors.Is(err, stmtErrs[i]) {
+					lostFault = fmt.Sprintf("statement %d (%s): the driver failed it with %q but the session call returned the unrelated error %q", i, st.K, stmtErrs[i], err)
+				}
+			}
 			if err != nil {
 				var inj *c11Fault
 				if errors.As(err, &inj) {
@@ -522,7 +556,7 @@ func VerifC11InterpTx(c C11TxCase, run C11Runner) (v kit.Verdict) {
 	events := f.snapshot()
 
 	// ---- classes / non-trivial rule
-	classes := []string{"entry:" + c.Entry}
+	classes := []string{"entry:" + c.Entry, "log:" + map[string]string{"": "on", "off": "DisableLog", "stmtoff": "DisableStmtLog"}[c.Log]}
 	ctxClass := "ctx:live"
 	switch {
 	case cx == "pre", cx == "dead":
@@ -597,6 +631,9 @@ func VerifC11InterpTx(c C11TxCase, run C11Runner) (v kit.Verdict) {
 		if !live {
 			cs = fmt.Sprintf("context %s (ctx.Err()=%v at return)", cx, userCtx.Err())
 		}
+		if c.Log != "" {
+			cs += ", logging " + c.Log
+		}
 		return fmt.Sprintf("result=%v, %s, driver history=%v, %s", res, p, events, cs)
 	}
 
@@ -639,6 +676,9 @@ func VerifC11InterpTx(c C11TxCase, run C11Runner) (v kit.Verdict) {
 	}
 	if queryWrong != "" {
 		return v.Failf("%s", queryWrong)
+	}
+	if lostFault != "" {
+		return v.Failf("%s; the body then ended with outcome %q (%s)", lostFault, outcome, describe())
 	}
 	if live {
 		if outcome != prescribed {
@@ -759,7 +799,7 @@ func TestVerif_C11_tx(t *testing.T) {
 // statements under a live context: every entry point x every statement list
 // (kind x {ok, fault returned, fault ignored, fault turned into a panic}) x
 // every final outcome (nil, error, three panic values) x every Begin fault x
-// Commit fault x Rollback fault; and, for the entry points that take a context
+// Commit fault x Rollback fault x logging {on, DisableLog}; and, for the entry points that take a context
 // and at most maxCtxStmts statements, the same with every non-live context
 // state (cancelled before the call, deadline expired, cancelled by the body
 // before statement 0..n or after the last one), where a statement without a
@@ -782,18 +822,24 @@ func c11EnumerateTx(maxStmts, maxCtxStmts int) func(yield func(C11TxCase) bool) 
 	outs := []out{{"nil", ""}, {"err", ""}, {"panic", "err"}, {"panic", "str"}, {"panic", "rt"}}
 	return func(yield func(C11TxCase) bool) {
 		emit := func(stmts []C11Stmt, entries []string, cx string) bool {
-			for _, e := range entries {
-				for _, o := range outs {
-					for _, fb := range []string{"", "begin", "connect"} {
-						if fb == "connect" && e == "newconn" {
-							continue
-						}
-						for _, fc := range []bool{false, true} {
-							for _, fr := range []bool{false, true} {
-								c := C11TxCase{Entry: e, Cx: cx, Stmts: append([]C11Stmt(nil), stmts...), Out: o.o, PanicV: o.pv,
-									FBegin: fb, FCommit: fc, FRollback: fr}
-								if !yield(c) {
-									return false
+			logs := []string{""}
+			if cx == "" {
+				logs = []string{"", "off"}
+			}
+			for _, lg := range logs {
+				for _, e := range entries {
+					for _, o := range outs {
+						for _, fb := range []string{"", "begin", "connect"} {
+							if fb == "connect" && e == "newconn" {
+								continue
+							}
+							for _, fc := range []bool{false, true} {
+								for _, fr := range []bool{false, true} {
+									c := C11TxCase{Entry: e, Cx: cx, Stmts: append([]C11Stmt(nil), stmts...), Out: o.o, PanicV: o.pv,
+										FBegin: fb, FCommit: fc, FRollback: fr, Log: lg}
+									if !yield(c) {
+										return false
+									}
 								}
 							}
 						}
@@ -873,6 +919,8 @@ type C11RowsCase struct {
 	Sess    string     `json:"s"`              // conn | tx | stmt | txstmt | rawtx (ext: cached)
 	Ctx     bool       `json:"x,omitempty"`    // ...Ctx form
 	Cd      bool       `json:"cd,omitempty"`   // the context handed to the ...Ctx form is already cancelled
+	Log     string     `json:"lg,omitempty"`   // package logging switches: "" both on | off (sqlx.DisableLog) | stmtoff (sqlx.DisableStmtLog)
+	QF      bool       `json:"qf,omitempty"`   // the driver fails the query
 	W       bool       `json:"w,omitempty"`    // warm-up: the same call into the same destination type with the columns in reverse order runs first (result ignored)
 	Single  bool       `json:"one,omitempty"`  // QueryRow* (else QueryRows*)
 	Partial bool       `json:"part,omitempty"` // *Partial form (non-strict)
@@ -1115,6 +1163,8 @@ func VerifC11GenRows(sessions []string) func(rt *rapid.T) C11RowsCase {
 		c.ElemPtr = !c.Single && rapid.Bool().Draw(rt, "elemptr")
 		c.Cd = rapid.IntRange(0, 19).Draw(rt, "ctxdone") == 11 && c.Ctx
 		c.W = rapid.IntRange(0, 3).Draw(rt, "warmup") == 0
+		c.Log = rapid.SampledFrom([]string{"", "", "off", "off", "stmtoff"}).Draw(rt, "log")
+		c.QF = rapid.IntRange(0, 19).Draw(rt, "queryfault") == 7
 		c.Shape = rapid.SampledFrom([]string{"tagged", "tagged", "tagged", "tagged", "tagged", "tagged",
 			"untagged", "untagged", "emb-untagged", "emb-tagged", "mixed", "prim"}).Draw(rt, "shape")
 
@@ -1367,6 +1417,7 @@ func c11RunQuery(c C11RowsCase, db *sql.DB, v any) error {
 //   - QueryRow* on zero rows: ErrNotFound. QueryRows* on zero rows: nothing copied.
 //   - NULL: into sql.Null* => not valid; into anything else: unspecified (database/sql).
 func VerifC11InterpRows(c C11RowsCase, q C11Querier) (v kit.Verdict) {
+	defer VerifC11SetLog(c.Log)()
 	f := newC11Fake()
 	for _, col := range c.Cols {
 		f.cols = append(f.cols, col.N)
@@ -1390,7 +1441,28 @@ func VerifC11InterpRows(c C11RowsCase, q C11Querier) (v kit.Verdict) {
 	} else {
 		form += "-strict"
 	}
-	classes := map[string]bool{"sess:" + c.Sess: true, "form:" + form: true, fmt.Sprintf("nrows:%d", c.NRows): true}
+	classes := map[string]bool{"sess:" + c.Sess: true, "form:" + form: true, fmt.Sprintf("nrows:%d", c.NRows): true,
+		"log:" + map[string]string{"": "on", "off": "DisableLog", "stmtoff": "DisableStmtLog"}[c.Log]: true}
+	queryFault := &c11Fault{"query"}
+	if c.QF && !c.Cd {
+		f.arm(queryFault)
+	}
+	// judgeQueryFault: a query the driver failed yields no result: the call must
+	// return that error and nothing may be copied.
+	judgeQueryFault := func(err error, pv any, holdsData string) kit.Verdict {
+		classes["query-fault"] = true
+		switch {
+		case pv != nil:
+			return v.Failf("the driver failed the query: panic %v", pv)
+		case err == nil:
+			return v.Failf("the driver failed the query with %q but the call returned a nil error", queryFault)
+		case !errors.Is(err, queryFault):
+			return v.Failf("the driver failed the query with %q but the call returned the unrelated error %q", queryFault, err)
+		case holdsData != "":
+			return v.Failf("the driver failed the query but the destination holds data: %s", holdsData)
+		}
+		return v
+	}
 	defer func() {
 		for k := range classes {
 			v.Classes = append(v.Classes, k)
@@ -1422,6 +1494,17 @@ func VerifC11InterpRows(c C11RowsCase, q C11Querier) (v kit.Verdict) {
 			dst = reflect.New(reflect.SliceOf(et))
 		}
 		err, pv := call(dst.Interface())
+		if c.QF && !c.Cd {
+			holds := ""
+			if c.Single {
+				if x := c11Norm(c.Prim, dst.Elem()); x != nil {
+					holds = fmt.Sprint(x)
+				}
+			} else if dst.Elem().Len() != 0 {
+				holds = fmt.Sprintf("%d elements", dst.Elem().Len())
+			}
+			return judgeQueryFault(err, pv, holds)
+		}
 		if pv != nil {
 			return v.Failf("primitive destination: panic %v", pv)
 		}
@@ -1616,6 +1699,21 @@ func VerifC11InterpRows(c C11RowsCase, q C11Querier) (v kit.Verdict) {
 	}
 	err, pv := call(dst.Interface())
 
+	if c.QF && !c.Cd {
+		holds := ""
+		if pv == nil {
+			if c.Single {
+				for li, x := range c11ReadLeaves(c.Fields, dst.Elem()) {
+					if x != nil {
+						holds = fmt.Sprintf("leaf %d holds %v", li, x)
+					}
+				}
+			} else if dst.Elem().Len() != 0 {
+				holds = fmt.Sprintf("%d elements", dst.Elem().Len())
+			}
+		}
+		return judgeQueryFault(err, pv, holds)
+	}
 	if unspecified != "" {
 		classes["unspecified:"+unspecified] = true
 		if pv != nil {
